@@ -196,6 +196,30 @@ Theorem opt_roundtrip : forall vs b A P,
 Proof. exact opt_roundtrip_thm. Qed.
 Print Assumptions opt_roundtrip.
 
+(* second half of the property for hand-modelled codecs without normalisation: an accepted octet
+   string yields a record whose own encoding exists and decodes to the same record *)
+Theorem hip_fixed_point : forall wire cur rdlen vs,
+  all_bytes wire = true ->
+  hand_decode_rdata HHip None wire cur rdlen = Ok vs ->
+  exists w', hand_encode_rdata HHip None vs = Ok w' /\
+             hand_decode_rdata HHip None w' 0 (length w') = Ok vs.
+Proof. exact hip_fixed_point_thm. Qed.
+Print Assumptions hip_fixed_point.
+
+Theorem ipseckey_fixed_point : forall wire cur rdlen vs,
+  hand_decode_rdata HIpseckey None wire cur rdlen = Ok vs ->
+  exists w', hand_encode_rdata HIpseckey None vs = Ok w' /\
+             hand_decode_rdata HIpseckey None w' 0 (length w') = Ok vs.
+Proof. exact ipseckey_fixed_point_thm. Qed.
+Print Assumptions ipseckey_fixed_point.
+
+Theorem amtrelay_fixed_point : forall wire cur rdlen vs,
+  hand_decode_rdata HAmtrelay None wire cur rdlen = Ok vs ->
+  exists w', hand_encode_rdata HAmtrelay None vs = Ok w' /\
+             hand_decode_rdata HAmtrelay None w' 0 (length w') = Ok vs.
+Proof. exact amtrelay_fixed_point_thm. Qed.
+Print Assumptions amtrelay_fixed_point.
+
 (* ---------- non-vacuity: the hypotheses are satisfiable on realistic records ---------- *)
 Definition mx_schema := [FS (FU 2 65535); FS (FName true)].
 Definition mx_value := [VS (VI 10); VS (VN [[109; 97; 105; 108]; [101; 120]; []])].
@@ -321,3 +345,11 @@ Proof. vm_compute. reflexivity. Qed.
 
 (* schema_reencode is not vacuous: NSEC3 has no names and no optional tail *)
 Example nsec3_no_norm : forallb no_norm nsec3_schema = true. Proof. reflexivity. Qed.
+
+(* GPOS as the translator emits it: three counted decimal strings with the range check *)
+Example gpos_example :
+  let fs := [FS (FCounted 1 0 255); FS (FCounted 1 0 255); FS (FCounted 1 0 255)] in
+  check_wf CkGPOS fs = true /\
+  (exists b, encode_rdata None fs CkGPOS [VS (VB [45; 57; 48]); VS (VB [49; 56; 48; 46; 48]); VS (VB [46; 53])] = Ok b) /\
+  encode_rdata None fs CkGPOS [VS (VB [57; 48; 46; 48; 49]); VS (VB [48]); VS (VB [48])] = Lib eValueError.
+Proof. repeat split; try reflexivity. eexists. vm_compute. reflexivity. Qed.
